@@ -200,6 +200,53 @@ def extract_keywords() -> list[str]:
     raise ExtractError(f"cannot read the keyword set {set_name}")
 
 
+def extract_name_re() -> dict:
+    """The identifier class `_decode_attr_name` (expressions/binding.py) accepts as a bare name:
+    the module-level `re.compile` named in its `<RE>.match(token)` test, pattern `[C1][C2]*\\Z`."""
+    mod = parse_file("expressions/binding.py")
+    fn = find_function(mod, "_decode_attr_name")
+    re_name = None
+    for node in ast.walk(fn):
+        if isinstance(node, ast.Call) and isinstance(node.func, ast.Attribute) and node.func.attr in ("match", "fullmatch") \
+                and isinstance(node.func.value, ast.Name):
+            re_name = (node.func.value.id, node.func.attr)
+    if re_name is None:
+        raise ExtractError("_decode_attr_name applies no module-level regex")
+    for node in mod.body:
+        if isinstance(node, ast.Assign) and any(isinstance(t, ast.Name) and t.id == re_name[0] for t in node.targets) \
+                and isinstance(node.value, ast.Call) and node.value.args:
+            p = const_str(node.value.args[0])
+            m = re.fullmatch(r"\^?\[((?:[^\]\\]|\\.)+)\]\[((?:[^\]\\]|\\.)+)\]\*(\$|\\Z|)", p or "")
+            if not m:
+                raise ExtractError(f"{re_name[0]} = {p!r} is not of the shape [..][..]*\\Z")
+            if not (m.group(3) == "\\Z" or re_name[1] == "fullmatch"):
+                raise ExtractError(f"{re_name[0]} = {p!r} is applied with .{re_name[1]} and is not anchored by \\Z")
+            return {"start": _parse_class(m.group(1)), "rest": _parse_class(m.group(2))}
+    raise ExtractError(f"no module-level definition of {re_name[0]}")
+
+
+def extract_name_escapes() -> list[tuple[str, str]]:
+    """The escape dictionary `_decode_attr_name` consults (`<DICT>.get(following, following)`)."""
+    mod = parse_file("expressions/binding.py")
+    fn = find_function(mod, "_decode_attr_name")
+    dict_name = None
+    for node in ast.walk(fn):
+        if isinstance(node, ast.Call) and isinstance(node.func, ast.Attribute) and node.func.attr == "get" \
+                and isinstance(node.func.value, ast.Name) and len(node.args) == 2:
+            dict_name = node.func.value.id
+    if dict_name is None:
+        raise ExtractError("_decode_attr_name has no <dict>.get(x, x)")
+    for node in mod.body:
+        if isinstance(node, ast.Assign) and any(isinstance(t, ast.Name) and t.id == dict_name for t in node.targets) \
+                and isinstance(node.value, ast.Dict):
+            ks = [const_str(k) for k in node.value.keys]
+            vs = [const_str(v) for v in node.value.values]
+            if any(x is None or len(x) != 1 for x in ks + vs):
+                raise ExtractError(f"{dict_name} is not a char-to-char dictionary")
+            return list(zip(ks, vs))
+    raise ExtractError(f"no module-level dictionary {dict_name}")
+
+
 # ------------------------------------------------------------------ driver
 def emit(res: Result) -> dict[str, str]:
     out = [
@@ -234,6 +281,20 @@ def emit(res: Result) -> dict[str, str]:
         out += ["def npKeywords : Option (List (List Char)) := none"]
     else:
         out += ["def npKeywords : Option (List (List Char)) := some [" + ", ".join(lean_text(k) for k in kws) + "]"]
+    nre = table("name_re", extract_name_re)
+    if nre is None:
+        out += ["def nameStartRanges : Option (List (Nat × Nat)) := none",
+                "def nameRestRanges : Option (List (Nat × Nat)) := none"]
+    else:
+        fmt = lambda rs: "[" + ", ".join(f"({a}, {b})" for a, b in rs) + "]"
+        out += [f"def nameStartRanges : Option (List (Nat × Nat)) := some {fmt(nre['start'])}",
+                f"def nameRestRanges : Option (List (Nat × Nat)) := some {fmt(nre['rest'])}"]
+    nesc = table("name_escapes", extract_name_escapes)
+    if nesc is None:
+        out += ["def nameEscapes : Option (List (Char × Char)) := none"]
+    else:
+        out += ["def nameEscapes : Option (List (Char × Char)) := some ["
+                + ", ".join(f"({lean_char(a)}, {lean_char(b)})" for a, b in nesc) + "]"]
     out += ["", "end Nima.Gen", ""]
     return {"Tables.lean": "\n".join(out)}
 
